@@ -269,6 +269,34 @@ fn cmd_sweep(args: &[String]) -> i32 {
             reports.push(rep);
         }
     }
+    // larger forests, one step: every tree shape up to 7 (8) nodes x every operation
+    if !flag(args, "--no-shapes") && prop != "C17" && arg(args, "--bounds").is_none()
+        && !reports.iter().any(|r| r.violations.iter().any(|v| !v.known) || r.cap_hit.is_some())
+    {
+        let max_nodes = if tier == "quick" { 8 } else { 9 };
+        let cfg = RunCfg {
+            n: max_nodes + 1, a: 64,
+            profile: pl.profile,
+            judge: pl.judge.clone(),
+            inits: vec![Init::New],
+            threads: threads(),
+            deadline: Some(deadline),
+            state_cap: 40_000_000,
+            seed: seed(),
+            validate_paths: false,
+            keep_digests: false,
+            collision_audit: false,
+            collect: false,
+            dump_level: None,
+            dump_out: None,
+        };
+        let rep = explore::explore_shapes(&cfg, max_nodes, &known);
+        eprintln!(
+            "[{prop} {tier}] single steps from every tree shape with <= {max_nodes} nodes (and the chains they leave): states={} transitions={} violations={} {:.1}s",
+            rep.states, rep.transitions, rep.violations.len(), rep.wall_s
+        );
+        reports.push(rep);
+    }
     // C01 / C02 / C10: the model-free closure (no pruning), so that the invariants are also judged on
     // arenas reached after some other property was violated on the way
     let mut free_json = json!(null);
@@ -290,6 +318,16 @@ fn cmd_sweep(args: &[String]) -> i32 {
         free_json = json!({"bounds": [n, a], "states": fr.states, "transitions": fr.transitions, "levels": fr.levels,
             "exhaustive": fr.exhaustive, "cap_hit": fr.cap_hit, "sample_history": fr.sample, "wall_s": fr.wall_s});
         free_counts = (fr.states, fr.transitions);
+    }
+    // C09 / C02: counters narrower than usize (depth, width) — a chain 70 000 deep and a node 70 000 wide
+    if (prop == "C09" || prop == "C02") && arg(args, "--bounds").is_none() {
+        let n = if tier == "quick" { 70_000usize } else { 140_000 };
+        for f in judges::deep_shapes(n) {
+            if f.props & pl.judge.target != 0 {
+                free_unknown += emit_simple(&prop, &f.sig, &f.detail, &known, json!({"engine": "deep-shapes", "nodes": n}));
+            }
+        }
+        eprintln!("[{prop} {tier}] deep shapes: a chain {n} deep and a node {n} wide traversed by every iterator, {:.1}s", t0.elapsed().as_secs_f64());
     }
     // C13: with_capacity(n) changes nothing observable: same digest stream as new(), capacity >= n
     let mut extra_unknown = free_unknown;
@@ -313,7 +351,14 @@ fn cmd_sweep(args: &[String]) -> i32 {
             dump_out: None,
         };
         let base = explore::explore(&mk(Init::New), &known);
-        let mut caps = Vec::new();
+        let mut caps: Vec<Value> = Vec::new();
+        for k in [20_000usize, 1_000_000] {
+            let a0: indextree::Arena<payload::Payload> = indextree::Arena::with_capacity(k);
+            caps.push(json!({"with_capacity": k, "capacity": a0.capacity()}));
+            if a0.capacity() < k {
+                extra_unknown += emit_simple("C13", "with_capacity|capacity|-|too-small", &format!("Arena::with_capacity({k}).capacity() = {}", a0.capacity()), &known, json!({"engine": "sweep"}));
+            }
+        }
         for k in [0usize, 1, 5, 64] {
             let a0: indextree::Arena<payload::Payload> = indextree::Arena::with_capacity(k);
             let r = explore::explore(&mk(Init::WithCapacity(k)), &known);
@@ -860,7 +905,7 @@ fn cmd_deep(args: &[String]) -> i32 {
             }
         }
         // ---- E2b: model-free enumeration of every new_node/remove history from the seeds ----
-        if prop == "C06" {
+        if prop == "C06" || prop == "C12" {
             if let Some(&(r, _)) = deep.retirements.first() {
                 use rayon::prelude::*;
                 let (depth, max_live) = if q { (9, 3) } else { (11, 3) };
@@ -874,7 +919,7 @@ fn cmd_deep(args: &[String]) -> i32 {
                     seeds.par_iter().map(|&(k, slots)| {
                         let mut stats = deep::IdDfsStats { paths: 0, steps: 0, is_removed_checks: 0, panics: 0 };
                         let r = match ops::guarded(|| deep::seed_state(k, slots)) {
-                            Ok(st) => deep::id_history_dfs(&st, depth, max_live, &mut stats),
+                            Ok(st) => deep::id_history_dfs(&st, depth, max_live, prop == "C12", &mut stats),
                             Err(_) => { stats.panics += 1; None }
                         };
                         (k, slots, stats, r)
@@ -885,7 +930,7 @@ fn cmd_deep(args: &[String]) -> i32 {
                     paths += st.paths; steps += st.steps; checks += st.is_removed_checks; panics += st.panics;
                     if let Some((path, f)) = r {
                         let sig = format!("{}|id-history|-|{}", f.judge, f.sig.rsplit('|').next().unwrap_or(""));
-                        unknown += emit_simple("C06", &sig, &format!("from seed(cycles={k},slots={slots}) the calls {:?}: {}", path, f.detail), &known,
+                        unknown += emit_simple(&prop, &sig, &format!("from seed(cycles={k},slots={slots}) the calls {:?}: {}", path, f.detail), &known,
                             json!({"engine": "id-history", "init": format!("seed(cycles={k},slots={slots})"), "calls": path}));
                     }
                 }
